@@ -222,11 +222,20 @@ def run(ck):
     qmem = E.m_is_mem("Format::Token::quote")
     sw = [b for b in asm.blocks.values() if (b.get("term") or {}).get("k") == "SwitchStmt" and qmem(E.strip(b["term"]["c"]))]
     ck.need(len(sw) == 1, "C34: Format::assemble no longer has exactly one switch on fmt->quote")
-    outs = {E.strip(E.strip(ev["x"])["a"][0]).get("d") for b in asm.blocks.values() for ev in b["ev"] if ev_call("Format::QuoteMimeBlob")(ev)}
-    ck.need(len(outs) == 1 and None not in outs, "C34: QuoteMimeBlob(out) call vanished from Format::assemble")
+    ck.need(asm.params, "C34: Format::assemble lost its MemBuf parameter")
+    rec = asm.params[0]["d"]
+    outs = set()
+    for b in asm.blocks.values():
+        for ev in b["ev"]:
+            x = E.strip(ev.get("x")) if ev.get("e") == "call" else None
+            if isinstance(x, dict) and x.get("f") == "MemBuf::append" and E.m_is_ref(rec)(x.get("o")) and len(x.get("a", [])) == 2:
+                a0, a1 = E.strip(x["a"][0]), E.strip(x["a"][1])
+                if a0.get("k") == "ref" and a0.get("dk") == "local" and a1.get("f") == "strlen" and E.m_is_ref(a0["d"])(a1["a"][0]):
+                    outs.add(a0["d"])
+    ck.need(len(outs) == 1, "C34: the record write mb.append(out, strlen(out)) vanished from Format::assemble")
     out = outs.pop()
     sink = lambda ev: (ev.get("e") == "call" and E.strip(ev["x"]).get("f") in ("MemBuf::append", "Packable::appendf", "MemBuf::appendf")
-                       and any(E.m_is_ref(out)(a) for a in E.strip(ev["x"]).get("a", [])))
+                       and E.m_is_ref(rec)(E.strip(ev["x"]).get("o")) and any(E.m_is_ref(out)(a) for a in E.strip(ev["x"]).get("a", [])))
     ck.need(Q["LOG_QUOTE_NONE"] == 0, "C34: LOG_QUOTE_NONE is no longer 0 (the gate atom normalises differently)")
     notnone = E.M(lambda t: qmem(E.strip(t)), "fmt->quote != LOG_QUOTE_NONE")       # `x != 0` is the truthiness atom `x`
     gate = [b for b in asm.blocks.values() if (b.get("term") or {}).get("c") is not None and any(notnone(l) for l in E.leaves(b["term"]["c"]))
@@ -234,8 +243,8 @@ def run(ck):
     ck.need(len(gate) == 1, "C34: the `quote || fmt->quote != LOG_QUOTE_NONE` gate vanished")
     qf = {E.strip(b["term"]["c"]).get("d") for b in asm.blocks.values() if (b.get("term") or {}).get("c") is not None
           and any(s["to"] == gate[0]["id"] and s.get("lab") == "F" for s in b["succ"]) and E.strip(b["term"]["c"]).get("dk") == "local"}
-    ck.need(len(qf) == 1, "C34: the per-field quote flag is no longer tested next to fmt->quote != LOG_QUOTE_NONE")
-    quote_flag = E.m_is_ref(qf.pop())
+    ck.need(len(qf) <= 1, "C34: several locals are tested next to fmt->quote != LOG_QUOTE_NONE")
+    quote_flag = E.m_is_ref(qf.pop()) if qf else E.M(lambda t: False, "<no per-field quote flag>")
     url_flags = {}
     for name, k in sorted(Q.items(), key=lambda kv: kv[1]):
         if name == "LOG_QUOTE_RAW":
@@ -333,14 +342,14 @@ def run(ck):
     ck.require_any("G3.qs-size", asm, ev_call("log_quoted_string"), [("P", "newout = xmalloc(out_len)", dyn), ("P", "newout = <static>", static_buf)], "log_quoted_string(out, newout)")
 
     # ------------------------------------------------------------------ URL
-    ck.rule("G4 rfc1738_do_escape with the constant flags Format::assemble passes (URL and NONE cases), per input byte with the flag local do_escape propagated: the raw "
+    ck.rule("G4 rfc1738_do_escape with the constant flags Format::assemble passes (URL and NONE cases), per input byte with flag locals (do_escape) constant-propagated: the raw "
             "copy is unreachable for control bytes (incl. CR LF), 0x7F and 8-bit bytes, and for '%' under LOG_QUOTE_URL; the escape is snprintf \"%%%02X\"; "
             "GINT: bytes per input byte <= multiplier of bufsize = strlen(url)*M+1")
     rfn = facts.fn("rfc1738_do_escape")
     ck.need(len(rfn.params) == 2, "C34: rfc1738_do_escape signature changed")
     flagp = rfn.params[1]["d"]
     for name, fv in sorted(url_flags.items()):
-        esc = Escaper(ck, rfn, extra_bind=[(lambda t, flagp=flagp: t.get("k") == "ref" and t.get("d") == flagp, fv)], tracked=["do_escape"])
+        esc = Escaper(ck, rfn, extra_bind=[(lambda t, flagp=flagp: t.get("k") == "ref" and t.get("d") == flagp, fv)], tracked=flag_locals(ck, rfn))
         forb = CTL_HIGH | ({PCT} if name == "LOG_QUOTE_URL" else set())
         esc.check_no_raw("G4.url-raw", forb, "control/8-bit bytes%s (flags %d, %s)" % (" and '%'" if PCT in forb else "", fv, name))
         esc.check_no_const_linebreak("G4.url-raw")
@@ -355,6 +364,12 @@ def run(ck):
     expansion("G4.url-size", ck, rfn, esc, alloc_mult(sizes[0], rfn.params[0]["d"]))
     ck.assume("exactly-one-record-per-transaction is not decided; reversibility is decided only as 'escape introducers are themselves escaped'; "
               "width truncation (%.*s) of an already quoted value is not analysed; rfc1738 unsafe/reserved character tables are not evaluated")
+
+
+def flag_locals(ck, fn):
+    """locals that only ever receive constants by plain assignment (flag idiom), to be constant-propagated"""
+    stepped = {E.root_decl(ev.get("lhs"))[1] for b in fn.blocks.values() for ev in b["ev"] if ev.get("e") == "asg" and ev.get("op") not in ("=", "init")}
+    return sorted(n for n, ds in ck.local_defs(fn).items() if n not in stepped and ds and all(E.const(d) is not None for d in ds))
 
 
 def alloc_mult(t, what):
